@@ -696,6 +696,60 @@ Proof.
   intros [H|[]]. vm_compute in H. discriminate.
 Qed.
 
+(* ---- configurations: what an engine stores depends on its own function table and its own files ---- *)
+Section ConfigProofs.
+  Variable src tpl cfg : Type.
+  Variable translate : cfg -> src -> tpl.
+  Variable exec_state : Type.
+  Variable new_exec : tpl -> gdata -> exec_state.
+  Variable run_exec : exec_state -> exec_state.
+  Variable output : exec_state -> option bytes.
+  Notation run := (run tpl exec_state new_exec run_exec output).
+  Notation load_all := (load_all src tpl cfg translate).
+
+  Lemma nth_load_all (es : list (cfg * list (bytes * src))) i :
+    nth_error (load_all es) i = option_map (load_cfg src tpl cfg translate) (nth_error es i).
+  Proof. unfold Purity.load_all. apply nth_error_map. Qed.
+
+  (* two processes, each with ANY engines loaded before and after; an engine with configuration c whose
+     directory holds the same file under the requested name answers alike in both *)
+  Lemma other_engines_independent (es es' : list (cfg * list (bytes * src))) i j c files files' ts ts' st st' rs rs' n d :
+    nth_error es i = Some (c, files) -> nth_error es' j = Some (c, files') ->
+    lookup n files = lookup n files' ->
+    nth_error (load_all es) i = Some ts -> nth_error (load_all es') j = Some ts' ->
+    resp tpl (run (mk_engine tpl ts st) (rs ++ [mk_request n d]))
+    = resp tpl (run (mk_engine tpl ts' st') (rs' ++ [mk_request n d])).
+  Proof.
+    intros Hi Hj Hl Hts Hts'.
+    rewrite nth_load_all, Hi in Hts. rewrite nth_load_all, Hj in Hts'. simpl in Hts, Hts'.
+    inversion Hts; inversion Hts'; subst. unfold load_cfg. simpl.
+    apply sibling_independent. exact Hl.
+  Qed.
+End ConfigProofs.
+
+(* non-vacuity and the variant: the shop area passes `motto` in the page data, in the blog area it is a
+   template function; both have a template `page` that reads the name *)
+Definition fn_shop : list bytes * list (bytes * list bytes) := ([], [(B "page", [B "motto"])]).
+Definition fn_blog : list bytes * list (bytes * list bytes) := ([B "motto"], [(B "page", [B "motto"])]).
+Example load_all_example :
+  load_all (list bytes) (list bytes) (list bytes) fn_translate [fn_shop; fn_blog]
+  = [[(B "page", [B "$motto"])]; [(B "page", [B "motto"])]].
+Proof. vm_compute. reflexivity. Qed.
+
+(* with a process-wide table of finished translations that is keyed by the source text alone, what the
+   blog engine stores depends on whether the shop engine was loaded before it *)
+Lemma translation_memo_refuted :
+  exists (e0 e1 : list bytes * list (bytes * list bytes)) n,
+    lookup n (nth 1 (load_all_memo (list bytes) (list bytes) (list bytes) fn_translate names_eqb [] [e0; e1]) [])
+    <> lookup n (nth 0 (load_all_memo (list bytes) (list bytes) (list bytes) fn_translate names_eqb [] [e1]) [])
+    /\ lookup n (nth 1 (load_all (list bytes) (list bytes) (list bytes) fn_translate [e0; e1]) [])
+       = lookup n (nth 0 (load_all (list bytes) (list bytes) (list bytes) fn_translate [e1]) []).
+Proof.
+  exists fn_shop, fn_blog, (B "page"). split.
+  - intros H. vm_compute in H. discriminate.
+  - vm_compute. reflexivity.
+Qed.
+
 (* ---- results: a reader returns the bytes of its render whenever it is read ---- *)
 Section ResultProofs.
   Variable tpl : Type.
@@ -1168,3 +1222,57 @@ Example sample_ops_mutate :
        CArr [MStr (B "c"); MNum 9];                                 (* 7: the spliced-off tail [b; c; 9] after shift *)
        CMap [(B "k", MNum 9); (B "x", MNum 1)] [] ].                (* 8: {} after Object.assign *)
 Proof. vm_compute. split; reflexivity. Qed.
+
+(* ---- values the conversion does not copy ---- *)
+Lemma conv_list_ext (cv cv' : store -> mval -> mval * store) :
+  (forall m v, cv m v = cv' m v) -> forall l m, conv_list cv m l = conv_list cv' m l.
+Proof.
+  intros H. induction l as [|x t IH]; intros m; simpl; [reflexivity|].
+  rewrite H, IH. reflexivity.
+Qed.
+Lemma conv_items_ext (cv cv' : store -> mval -> mval * store) :
+  (forall m v, cv m v = cv' m v) -> forall l m, conv_items cv m l = conv_items cv' m l.
+Proof.
+  intros H. induction l as [|x t IH]; intros m; simpl; [reflexivity|].
+  rewrite H, IH. reflexivity.
+Qed.
+
+(* a conversion that keeps nothing is the conversion of the model *)
+Lemma mconvert_keep_none : forall fuel m v, mconvert_keep (fun _ => false) fuel m v = mconvert fuel m v.
+Proof.
+  induction fuel as [|f IH]; intros m v; destruct v as [| | | |a]; try reflexivity.
+  simpl. destruct (nth_error m a) as [[l|items order|v']|]; try reflexivity.
+  - rewrite (conv_list_ext _ _ IH). reflexivity.
+  - rewrite (conv_items_ext _ _ IH). reflexivity.
+  - apply IH.
+Qed.
+
+Lemma render_mem_keep_none g root fuel ops :
+  render_mem_keep (fun _ => false) g root fuel ops = render_mem g root fuel ops.
+Proof. unfold render_mem_keep, render_mem. rewrite mconvert_keep_none. reflexivity. Qed.
+
+Lemma input_untouched_keep_none g root fuel ops :
+  gstore_after g (render_mem_keep (fun _ => false) g root fuel ops) = g.
+Proof. rewrite render_mem_keep_none. apply input_untouched. Qed.
+
+Lemma copy_all_untouched g root fuel ops :
+  render_mem_keep (fun _ => false) g root fuel ops = render_mem g root fuel ops
+  /\ gstore_after g (render_mem_keep (fun _ => false) g root fuel ops) = g.
+Proof. split; [apply render_mem_keep_none|apply input_untouched_keep_none]. Qed.
+
+(* the page data holds a list the caller converted itself (cell 0 is kept): the template reads it and
+   sorts it - the caller's list is sorted *)
+Definition shared_store : store :=
+  [ CArr [MStr (B "pear"); MStr (B "fig"); MStr (B "apple")];      (* 0: tags, a *pugjs.Array / []pugjs.Object *)
+    CMap [(B "tags", MRef 0)] [] ].                                (* 1: the page data, a Go map *)
+Lemma shared_object_refuted :
+  exists (keep : nat -> bool) (g : store) (root : mval) (fuel : nat) (ops : list op),
+    wf_store g = true /\
+    gstore_after g (render_mem_keep keep g root fuel ops) <> g
+    /\ gstore_after g (render_mem g root fuel ops) = g.
+Proof.
+  exists (Nat.eqb 0), shared_store, (MRef 1), 2, [OMember 0 (B "tags"); OSort 1].
+  split; [vm_compute; reflexivity|]. split.
+  - intros H. vm_compute in H. discriminate.
+  - apply input_untouched.
+Qed.
